@@ -28,6 +28,7 @@ static ev_src_t *captured;
 static int inserts;
 int m_bst_insert(m_bst_t *l, void *data) { captured = data; inserts++; return 0; }
 int poll_set_new_evt(poll_priv_t *priv, ev_src_t *tmp, const enum op_type flag) { return 0; }
+int dup(int fd) { return fd + 1; }            /* M_SRC_DUP: the duplicate is another descriptor number */
 
 static void *ident[K + 2];
 static int calls, nseen, seen[K + 3];
@@ -59,7 +60,7 @@ int vf_main(void) {
     const int fd = 7;            /* concrete: a symbolic number makes the parameter check a symbolic early return (heap shape) */
     int r = m_mod_src_register_fd(mod, fd, (m_src_flags)(VF_FLAGS), &user);
     VF_CHECK(r == 0 && inserts == 1 && captured != NULL, "a descriptor source with unspecified or HIGH priority is accepted");
-    VF_CHECK(captured->type == M_SRC_TYPE_FD && captured->fd_src.fd == fd && captured->mod == mod, "the source block describes the descriptor");
+    VF_CHECK(captured->type == M_SRC_TYPE_FD && captured->fd_src.fd == (((VF_FLAGS) & M_SRC_DUP) ? fd + 1 : fd) && captured->mod == mod, "the source block describes the descriptor");
 
     evt_priv_t *nw = new_evt(captured); VF_ASSUME(nw != NULL);
     nw->evt.fd_evt = m_mem_new(sizeof(m_evt_fd_t), NULL); VF_ASSUME(nw->evt.fd_evt != NULL);   /* as process_fd */
